@@ -480,6 +480,7 @@ def install(w):
     install_datetime(w)
     install_calendar(w)
     install_format_stub(w)
+    install_strings(w)
 
 
 def _kwbind(names, defaults, args, kw, line):
@@ -1083,3 +1084,49 @@ def install_format_stub(w):
         yield st, YearMonthStr(self.year, self.month)
 
     w.reg(FormattableMixin.__dict__["format"], h_format, "FormattableMixin.format('YYYY-MM') (assumed injective in year, month; see C08)")
+
+
+class KeyedStr(str):
+    """a translation string that remembers the locale key it was looked up under"""
+
+    key = None
+
+
+class Formatted:
+    """abstract result of template.format(*args) with symbolic arguments"""
+
+    _symstr = True
+
+    def __init__(self, template, args):
+        self.template, self.args = template, tuple(args)
+
+    def length(self):
+        raise Unsupported("length of a formatted string")
+
+
+def install_strings(w):
+    import string
+
+    def h_format(ex, st, args, kw, line):
+        tmpl, fargs = args[0], args[1:]
+        auto = 0
+        for lit, field, spec_, conv in string.Formatter().parse(tmpl):
+            if field is None:
+                continue
+            name = field.split(".")[0].split("[")[0]
+            if name == "":
+                idx = auto
+                auto += 1
+            elif name.isdigit():
+                idx = int(name)
+            else:
+                if name not in kw:
+                    ex.pending_raise(st, ExcVal(KeyError, line=line))
+                    return
+                continue
+            if idx >= len(fargs):
+                ex.pending_raise(st, ExcVal(IndexError, line=line))
+                return
+        yield st, Formatted(tmpl, fargs)
+
+    w.reg(str.__dict__["format"], h_format, "str.format (placeholder structure checked; the text itself is abstract)")
